@@ -189,9 +189,10 @@ class OrderAnalysis:
                         el = self.set_elem(node.iter, env, ci)
                         if el is not None:
                             safe, why = self.loop_body_order_free(node)
+                            extra = set(getattr(self, '_bound_in_body', set())) if safe else set()
                             if not safe:
                                 safe, why = self.own_entry_effects(node, fn, ci, mname)
-                            if safe and self._loop_var_escapes(fn, node, parents):
+                            if safe and self._loop_var_escapes(fn, node, parents, extra):
                                 # commuting iterations do not help if the LAST element is used afterwards
                                 safe, why = False, ''
                             out.append(self._site(fn, mname, qn, node.iter, el, 'for', safe, why, node))
@@ -237,11 +238,11 @@ class OrderAnalysis:
         return out
 
     @staticmethod
-    def _loop_var_escapes(fn, loop: ast.For, parents) -> bool:
+    def _loop_var_escapes(fn, loop: ast.For, parents, extra=()) -> bool:
         """a loop variable is read after the loop before being bound again: its value is then the last element iterated - of a set,
         whichever that was.  "After" follows the control flow through enclosing loops: the rest of the enclosing body, then the
         enclosing body from its start (next iteration), outwards."""
-        names = {n.id for n in ast.walk(loop.target) if isinstance(n, ast.Name)}
+        names = {n.id for n in ast.walk(loop.target) if isinstance(n, ast.Name)} | set(extra)
         if not names:
             return False
         inside = {id(n) for n in ast.walk(loop)}
@@ -498,6 +499,7 @@ class OrderAnalysis:
 
     def loop_body_order_free(self, loop: ast.For):
         """every effect of the body is commutative and idempotent with respect to iteration order"""
+        self._bound_in_body = set()
         for st in loop.body:
             if not self._stmt_order_free(st):
                 return False, ''
@@ -655,6 +657,13 @@ class OrderAnalysis:
         if isinstance(st, ast.Return) and isinstance(st.value, ast.Constant) and isinstance(st.value.value, bool):
             return True
         if isinstance(st, (ast.Pass, ast.Continue, ast.Assert)):
+            return True
+        # a local bound from a call-free expression (a lookup, an attribute): no effect of its own; that its LAST value is not read
+        # after the loop is checked with the loop variable (`_loop_var_escapes`)
+        if isinstance(st, (ast.Assign, ast.AnnAssign)) and st.value is not None \
+                and isinstance(st.targets[0] if isinstance(st, ast.Assign) else st.target, ast.Name) \
+                and not any(isinstance(n, (ast.Call, ast.Await, ast.Yield, ast.YieldFrom, ast.NamedExpr, ast.Lambda)) for n in ast.walk(st.value)):
+            getattr(self, '_bound_in_body', set()).add((st.targets[0] if isinstance(st, ast.Assign) else st.target).id)
             return True
         return False
 
